@@ -180,3 +180,11 @@ def interplay_cases():
         for tag, ctx in INTERPLAY_CONTEXTS:
             yield {'shape': 'interplay.' + tag, 'expr': e, 'ctx': tag, 'closed': False, 'interplay': True,
                    'src': ctx.replace('{E}', e).replace('{L}', repr(v))}
+
+
+def huge_shift_cases():
+    """shift counts for which the interpreter gives up at once (MemoryError / OverflowError): must be left alone, never crash the minifier"""
+    for e in ['1 << 4611686018427387904', '1 << 9223372036854775807', '2 << 4611686018427387904', '-1 << 4611686018427387904', '1 << 4611686018427387904 >> 1',
+              '0 << 4611686018427387904', '1 >> 4611686018427387904']:
+        for tag, ctx in (CONTEXTS[0], CONTEXTS[1], ('dead_code', 'V = 5\nif False:\n    W = {E}\n')):
+            yield {'shape': 'hugeshift.' + tag, 'expr': e, 'ctx': tag, 'closed': False, 'src': ctx.replace('{E}', e)}
